@@ -658,7 +658,7 @@ int cmd_check(const std::string &property, const std::string &tier_s) {
 	cov.set("nontrivial_runs", js::Val(total.nontrivial));
 	cov.set("distinct_event_logs", js::Val((uint64_t)total.hashes_all.size()));
 	cov.set("distinct_abstract_states", js::Val((uint64_t)total.states.size()));
-	cov.set("abstract_state_measure", "(multiset of handle states, connection state, reassembly fill bucket, pending server requests, cache occupancy, id generation mod 4) after every op");
+	{ std::string m; for (auto &j : jobs) if (Engine *e = engine_by_name(j.engine)) { if (!m.empty()) m += " | "; m += std::string(e->name()) + ": " + e->state_measure(); } cov.set("abstract_state_measure", m); }
 	cov.set("simulated_seconds", js::Val((uint64_t)(total.sim_ms / 1000)));
 	cov.set("runs_per_hour", js::Val((uint64_t)(wall_s > 0 ? total.runs / wall_s * 3600 : 0)));
 	cov.set("inconclusive_runs", js::Val(total.inconclusive));
